@@ -38,6 +38,7 @@ type SortCase struct {
 	MissingNul bool
 	Rows       []Row
 	Batches    []int
+	cols       [][]string // the value alphabet of every key column
 }
 
 func (c *SortCase) flags() string {
@@ -292,7 +293,6 @@ func genColumn(rng *Rng, p pool, byText map[string]*UVal) []string {
 var keyNames = []string{"a", "b", "c"}
 
 func genSortCase(rng *Rng, zctx *zed.Context, pools []pool, byText map[string]*UVal, maxRows int, firstID int) (*SortCase, error) {
-	nullIdx := byText["null"].Idx
 	c := &SortCase{NullsFirst: rng.Bool(), Reverse: rng.Chance(1, 3), MissingNul: true}
 	nk := 1 + rng.Intn(3)
 	if rng.Chance(1, 2) {
@@ -332,10 +332,32 @@ func genSortCase(rng *Rng, zctx *zed.Context, pools []pool, byText map[string]*U
 		c.Keys = append(c.Keys, KeySpec{Name: keyNames[k], Desc: rng.Chance(2, 5), Pool: p.name})
 		cols[k] = genColumn(rng, p, byText)
 	}
+	c.cols = cols
 	n := rng.Intn(maxRows + 1)
 	if rng.Chance(1, 12) {
 		n = rng.Intn(3)
 	}
+	if err := c.genRows(rng, zctx, byText, n, firstID); err != nil {
+		return nil, err
+	}
+	return c, nil
+}
+
+// sibling returns another input for the same operator configuration (same
+// keys, flags and column alphabets, fresh rows and batch boundaries).
+func (c *SortCase) sibling(rng *Rng, zctx *zed.Context, byText map[string]*UVal, maxRows, firstID int) (*SortCase, error) {
+	d := &SortCase{Keys: c.Keys, NullsFirst: c.NullsFirst, Reverse: c.Reverse, MissingNul: c.MissingNul, cols: c.cols}
+	n := rng.Intn(maxRows + 1)
+	if rng.Chance(1, 10) {
+		n = rng.Intn(2)
+	}
+	return d, d.genRows(rng, zctx, byText, n, firstID)
+}
+
+func (c *SortCase) genRows(rng *Rng, zctx *zed.Context, byText map[string]*UVal, n, firstID int) error {
+	nullIdx := byText["null"].Idx
+	nk := len(c.Keys)
+	cols := c.cols
 	for i := 0; i < n; i++ {
 		id := firstID + i
 		fields := []string{fmt.Sprintf("id:%d", id)}
@@ -368,13 +390,13 @@ func genSortCase(rng *Rng, zctx *zed.Context, pools []pool, byText map[string]*U
 		r.Text = "{" + strings.Join(fields, ",") + "}"
 		v, err := makeRecord(zctx, names, fvals)
 		if err != nil {
-			return nil, fmt.Errorf("row %s: %w", r.Text, err)
+			return fmt.Errorf("row %s: %w", r.Text, err)
 		}
 		r.Val = v
 		c.Rows = append(c.Rows, r)
 	}
 	c.Batches = genBatches(rng, n)
-	return c, nil
+	return nil
 }
 
 func genBatches(rng *Rng, n int) []int {
@@ -460,6 +482,11 @@ type slicePuller struct {
 func (p *slicePuller) Pull(done bool) (zbuf.Batch, error) {
 	if done || p.i >= len(p.batches) {
 		p.i = len(p.batches)
+		return nil, nil
+	}
+	if p.batches[p.i] == nil {
+		// a nil entry is an end-of-stream between two inputs
+		p.i++
 		return nil, nil
 	}
 	b := zbuf.NewArray(append([]zed.Value{}, p.batches[p.i]...))
@@ -577,6 +604,7 @@ func partsBC(o Opts, rng *Rng, res *Result, zctx *zed.Context, U []UVal, base ma
 		if rng.Chance(1, 3) {
 			nextID = 0
 		}
+		crumb(c.replay(map[string]any{"part": "sort operator, one input (MemMaxBytes lowered)"}))
 		spec := specComparator(zctx, c.Keys, c.NullsFirst, c.Reverse)
 		cmp := tableCmp(base, c.Keys, c.NullsFirst, c.Reverse)
 		// the code's comparator configured per the specification agrees with the pair table
